@@ -379,7 +379,7 @@ structure SigRec where
   key : Key
   val : Int
   subs : List Sub
-  deriving Repr, Inhabited
+  deriving DecidableEq, Repr, Inhabited
 
 structure MemoRec where
   key : Key
@@ -388,7 +388,7 @@ structure MemoRec where
   dirty : Bool
   value : Option Int
   sources : List Nat
-  deriving Repr, Inhabited
+  deriving DecidableEq, Repr, Inhabited
 
 structure EffRec where
   key : Key
@@ -400,7 +400,7 @@ structure EffRec where
   woken : Bool
   done : Bool
   sources : List Nat
-  deriving Repr, Inhabited
+  deriving DecidableEq, Repr, Inhabited
 
 /-- body tokens (harness grammar) -/
 inductive BOp where
